@@ -118,6 +118,7 @@ type lcNet struct {
 	// Write calls used for one message.
 	blocked atomic.Int32  // dial attempts currently or formerly blocked by a "block" fault
 	frames atomic.Int64   // request frames started, all connections
+	whole  atomic.Int64   // request frames completed, all connections
 	txByID map[string]int // complete request frames by the identifier they carry
 	// inWrite, if set, is called when a request frame carrying that identifier is handed to Write (before any byte
 	// is passed on); the Write continues when it returns.
@@ -286,6 +287,7 @@ func (c *lcConn) account(p []byte) (ids []string) {
 		c.net.mu.Unlock()
 		c.wacc = append([]byte(nil), c.wacc[need:]...)
 		c.wopen = false
+		c.net.whole.Add(1)
 	}
 	return ids
 }
@@ -393,8 +395,9 @@ func (c *lcConn) Write(p []byte) (int, error) {
 				return n, werr
 			}
 			if d := c.net.dir; d != nil {
-				dl := time.Now().Add(lcWaitEvent)
-				for d.hitCount("cli.read.beforeRx") == rx0 && time.Now().Before(dl) {
+				// (bounded well below the goroutine oracle's patience: this is the client's write loop waiting)
+				dl := time.Now().Add(lcWaitEvent / 8)
+				for d.hitCount("cli.read.beforeRx") == rx0 && time.Now().Before(dl) && !c.cclosed.Load() && !c.srvGone.Load() {
 					time.Sleep(20 * time.Microsecond)
 				}
 			}
